@@ -155,6 +155,69 @@ def tie_wraplines_para(ctx: Ctx) -> None:
                    "correspondence", bad == 0, f"{bad} disagreement(s)")
 
 
+FT_MODES = ["none", "wrap", "wrap_full", "wrap_indent", "indent_only", "hanging_indent", "markdown_item"]
+
+
+def filltext_cases(ctx: Ctx, n: int):
+    rng = ctx.rng
+    for _ in range(n):
+        paras = []
+        for _ in range(rng.randint(0, 4)):
+            ws = gen.rand_words(rng, rng.randint(0, 14), hazard=0.1)
+            paras.append(gen.layout(rng, ws, exotic=rng.random() < 0.15))
+        text = rng.choice(["\n\n", "\n\n\n", "\n \n", "\n\n\n\n"]).join(paras)
+        if rng.random() < 0.2:
+            text = rng.choice(["\n", "\n\n", "  "]) + text + rng.choice(["\n", "\n\n", ""])
+        mode = rng.choice(FT_MODES)
+        W = rng.choice([-3, 0, 0, 1, 5, 12, 20, 40, 88])
+        extra = rng.choice(["", "", "  ", "> "])
+        empty = rng.choice(["", "", "  ", ">", " # "])
+        ic = rng.choice([0, 0, 0, 4])
+        yield text, mode, W, extra, empty, ic
+
+
+def tie_filltext(ctx: Ctx) -> None:
+    from flowmark.linewrapping import text_filling as tf
+    tw = _flowmark()
+    cases = list(filltext_cases(ctx, ctx.scale(6000, 80000)))
+    ops = [f"fillText\t{m}\t{enc(t)}\t{W}\t{enc(ex)}\t{enc(em)}\t{ic}" for t, m, W, ex, em, ic in cases]
+    outs = run_driver(ops, workers=16)
+    bad = 0
+    for (t, m, W, ex, em, ic), o in zip(cases, outs):
+        exp = tf.fill_text(t, tf.Wrap(m), W, ex, em, ic, word_splitter=tw.simple_word_splitter)
+        got = None if o == "bad-op" else dec(o)
+        ctx.count(["fillText", t, m, W, ex, em, ic], nontrivial="\n" in exp)
+        ctx.bump("fillText:" + m)
+        if got != exp:
+            bad += 1
+            ctx.tie_broken("fillText", {"text": t, "mode": m, "W": W, "extra": ex, "empty": em, "ic": ic}, got, exp)
+        check_filltext_clauses(ctx, t, m, W, ex, em, ic, exp)
+    ctx.obligation(f"tie fillText: model fillText = fill_text on {len(cases)} calls (7 Wrap modes, W incl. ≤0, indents, paragraphs)",
+                   "correspondence", bad == 0, f"{bad} disagreement(s)")
+
+
+def check_filltext_clauses(ctx: Ctx, text, mode, W, extra, empty, ic, out: str) -> None:
+    """NOWRAP / BOUND / LOSSLESS for the public fill_text in the wrapping modes."""
+    import re
+    if mode in ("none", "indent_only"):
+        return
+    case = {"fn": "fill_text", "text": text, "mode": mode, "W": W, "extra": extra, "empty": empty, "ic": ic}
+    paras = [p.strip() for p in re.split(r"\n{2,}", text)]
+    sep = "\n" + empty.strip() + "\n"
+    if [w for p in paras for w in p.split()] != out.replace(sep, " ").split() and extra.strip() == "" and empty.strip() == "":
+        ctx.fail("FT_LOSSLESS: fill_text changed the word sequence", case, out)
+        return
+    sub = extra + {"markdown_item": "  ", "wrap_indent": "    ", "hanging_indent": "    "}.get(mode, "")
+    if W - len(sub) <= 0:
+        # exactly one line per paragraph: pieces between separators are the paragraphs, none multi-line
+        pieces = out.split(sep)
+        if len(pieces) != len(paras) or any("\n" in pc for pc in pieces):
+            multi = any("\n" in p for p in paras)
+            known = "C05-plaintext-nowrap-keeps-newlines" if (multi and mode in ("wrap", "markdown_item")) else None
+            ctx.fail("FT_NOWRAP: width<=0 must give exactly one line per paragraph in fill_text", case,
+                     {"pieces": len(pieces), "paragraphs": len(paras), "out": out}, known=known)
+
+
 # ------------------------------------------------------------------------------------------
 # Ring 3: the clauses on the real function's output
 
@@ -250,6 +313,16 @@ def replay_findings(ctx: Ctx) -> None:
             check_clauses(ctx, c["words"], c["W"], c["c0"], c["c1"], c["md"],
                           _py_fill(tw, c["words"], c["W"], c["c0"], c["c1"], c["md"]), "wrap_paragraph_lines")
             ctx.count(["finding-replay", fid])
+        elif c.get("fn") == "reformat_text_plain":
+            from flowmark import reformat_text
+            out = reformat_text(c["text"], width=c["W"], plaintext=True)
+            ctx.known_replay(fid, any("\n" in p for p in out.split("\n\n")))
+            ctx.count(["finding-replay", fid])
+        elif c.get("fn") == "fill_text":
+            from flowmark.linewrapping import text_filling as tf
+            out = tf.fill_text(c["text"], tf.Wrap(c["mode"]), c["W"], c["extra"], c["empty"], c["ic"], word_splitter=tw.simple_word_splitter)
+            ctx.known_replay(fid, "\n" in out)
+            ctx.count(["finding-replay", fid])
         elif c.get("fn") == "line_wrap_by_sentence":
             from flowmark.linewrapping import line_wrappers as lw
             out = lw.line_wrap_by_sentence(width=c["W"], min_line_len=c["minLen"], is_markdown=c["md"])(c["text"], c["i0"], c["s0"])
@@ -265,6 +338,7 @@ def run(ctx: Ctx) -> None:
         tie_escape(ctx)
         tie_fill(ctx)
         tie_wraplines_para(ctx)
+        tie_filltext(ctx)
     else:
         search(ctx)
     sentence_oracle(ctx, ctx.scale(4000, 60000))
